@@ -3,6 +3,7 @@ mod checks;
 mod dbg;
 mod engine;
 mod explore;
+mod layout;
 mod refm;
 mod repo_tests;
 mod runner;
